@@ -307,6 +307,32 @@ def r12_5(ctx):
     cl = [c for c in walk_no_nested(g.node) if is_call_to(c, "clone", g.params[1])]
     ok = len(cl) == 1 and ast.unparse(cl[0].args[0]) == "self" and any(k.arg is None and ast.unparse(k.value) == g.kwarg for k in cl[0].keywords)
     ctx.check(ok, "Stage.stage clones the template under this stage with the overrides", detail="template call", expected="template.clone(self, ..., **kwargs)", found="; ".join(ast.unparse(c) for c in cl), fi=g)
+    # simulated calls: every override given to stage() reaches clone() / Stage() with its value - also the falsy ones (t0=0, T=0)
+    from ..sim import Sim, fresh_obj
+    from ..layout import Sym, Obj, freeze, LayoutUnknown
+    for with_template in (True, False):
+        for overrides in ({"t0": 0, "T": 5}, {"T": 0}, {"t0": Sym("sym_t0")}, {}):
+            got = {}
+            made = fresh_obj("made")
+            tpl = fresh_obj("template")
+            hooks = {".clone": lambda s_, r, a, k, n, got=got: (got.update({"via": "clone", "parent": a[0] if a else None, "kw": dict(k)}), made)[1],
+                     "Stage": lambda s_, r, a, k, n, got=got: (got.update({"via": "Stage", "parent": a[0] if a else None, "kw": dict(k)}), made)[1],
+                     "._set_transcribed": lambda s_, r, a, k, n: None}
+            me = fresh_obj("self", _stages=[])
+            try:
+                known_params = [p_ for p_ in g.params[2:] if p_ in overrides]
+                kw_direct = {p_: overrides[p_] for p_ in known_params}
+                rest = {k_: v_ for k_, v_ in overrides.items() if k_ not in kw_direct}
+                kw_direct[g.params[1]] = tpl if with_template else None
+                out = Sim(P, hooks=hooks, truth={g.params[1]: with_template}).call(g, [me], kw_direct, extra_env={g.kwarg: dict(rest)} if g.kwarg else None)
+            except LayoutUnknown as e:
+                raise AnalysisError("Stage.stage could not be simulated: %s" % e)
+            kw = {k_: v_ for k_, v_ in got.get("kw", {}).items() if k_ in ("t0", "T")}
+            okc = got.get("via") == ("clone" if with_template else "Stage") and got.get("parent") is me and {k_: freeze(v_) for k_, v_ in kw.items()} == {k_: freeze(v_) for k_, v_ in overrides.items()} \
+                and out is made and me.attrs["_stages"] == [made]
+            ctx.check(okc, "Stage.stage(%s%s) hands the overrides on unchanged and registers the new stage" % ("template, " if with_template else "", ", ".join("%s=%s" % (k_, v_ if not isinstance(v_, Sym) else "<symbol>") for k_, v_ in overrides.items())),
+                      detail="an override of the horizon is dropped or altered (a value such as t0=0 must not be mistaken for 'not given')", expected="%s(self, %s)" % ("template.clone" if with_template else "Stage", overrides),
+                      found="%s with %s" % (got.get("via"), {k_: (v_ if not isinstance(v_, Sym) else "<symbol>") for k_, v_ in kw.items()}), fi=g)
     apps = [c for c in walk_no_nested(g.node) if is_call_to(c, "append", "self._stages")]
     ok = len(apps) == 1 and not sc.guards(apps[0])
     ok2, _ = must_on_all_paths(g.node.body, _is_invalidate)
